@@ -37,6 +37,21 @@ type Tape struct {
 	pos    int
 	r      *rng
 	replay bool
+	// Deep: this run uses the larger bounds of the thorough tier (more tasks, longer
+	// histories, bigger programs). Part of the run's identity: stored in replay files.
+	Deep bool
+}
+
+// DeepFrom: run indices from here on use the deep bounds (the thorough tier gives half of
+// its workers indices in this range; the quick tier never reaches it).
+const DeepFrom = uint64(1) << 40
+
+// DrawD draws below n, or below deep when the run uses the deep bounds.
+func (t *Tape) DrawD(n, deep int) int {
+	if t.Deep {
+		return t.Draw(deep)
+	}
+	return t.Draw(n)
 }
 
 func NewGenTape(seed uint64) *Tape { return &Tape{r: &rng{s: seed}} }
@@ -88,6 +103,18 @@ func (t *Tape) Used() []uint32 {
 
 type Tapes struct {
 	Gen, Sched, Fault *Tape
+	Deep              bool
+}
+
+// TapesForRun returns fresh generating tapes for run idx of a batch.
+func TapesForRun(base uint64, prop string, idx uint64) *Tapes {
+	tp := NewGenTapes(MixSeed(base, prop, idx))
+	tp.setDeep(idx >= DeepFrom)
+	return tp
+}
+
+func (t *Tapes) setDeep(d bool) {
+	t.Deep, t.Gen.Deep, t.Sched.Deep, t.Fault.Deep = d, d, d, d
 }
 
 func NewGenTapes(seed uint64) *Tapes {
@@ -102,14 +129,17 @@ type TapeVals struct {
 	Gen   []uint32 `json:"gen"`
 	Sched []uint32 `json:"sched"`
 	Fault []uint32 `json:"fault"`
+	Deep  bool     `json:"deep,omitempty"`
 }
 
 func (t *Tapes) Snapshot() TapeVals {
-	return TapeVals{Gen: t.Gen.Used(), Sched: t.Sched.Used(), Fault: t.Fault.Used()}
+	return TapeVals{Gen: t.Gen.Used(), Sched: t.Sched.Used(), Fault: t.Fault.Used(), Deep: t.Deep}
 }
 
 func ReplayTapes(v TapeVals) *Tapes {
-	return &Tapes{Gen: NewReplayTape(v.Gen), Sched: NewReplayTape(v.Sched), Fault: NewReplayTape(v.Fault)}
+	tp := &Tapes{Gen: NewReplayTape(v.Gen), Sched: NewReplayTape(v.Sched), Fault: NewReplayTape(v.Fault)}
+	tp.setDeep(v.Deep)
+	return tp
 }
 
 // fnv-1a, used for distinctness hashes of traces.
